@@ -440,7 +440,7 @@ func controlPart() {
 	if !run.Quick() {
 		states = ctlStates
 	}
-	reps := run.Pick(1, 12)
+	reps := run.Pick(2, 12)
 	for rep := 0; rep < reps; rep++ {
 		for _, st := range states {
 			for _, m := range ctlMethods {
